@@ -44,7 +44,7 @@ func vSender(c vCluster) uint64 {
 
 // C03: RequestVote from an arbitrary state: one vote per term, a grant is
 // recorded, election restriction (V1 V2 V3) + every frame lemma.
-// vcheck: reach=granted,rejected,done workers=16
+// vcheck: props=C04 reach=granted,rejected,state-changed,done workers=16
 func VHarness_C03_RequestVote() {
 	r, c := vRaft(vRaftOpts{shapes: vQuickShapes(), log: vStdLog(), flags: true, maxRead: vTier()})
 	p := vRecord(r)
@@ -52,12 +52,22 @@ func VHarness_C03_RequestVote() {
 		LogTerm: vU64("mlogterm"), LogIndex: vU64("mlogindex"), Hint: vU64("hint")}
 	vAssume(m.Term >= 1)
 	vAssume(m.Term < vMaxIdx)
-	peer := Peer{raft: r}
+	// what the log store holds is what the previous Update carried
+	peer := Peer{raft: r, prevState: pb.State{Term: p.term, Vote: p.vote, Commit: p.log.committed}}
 	err := peer.Handle(m)
 	vAssert(err == nil, "noerr")
 	vFrame(p, r, c, "")
 	li := p.log.last()
 	lt := p.log.term(li)
+	// V2 (second half): the vote and term reach the log store with the very
+	// Update that carries the response, whenever they differ from what is stored
+	if r.term != p.term || r.vote != p.vote {
+		vAssert(peer.HasUpdate(true), "V2-changed-hard-state-makes-an-update")
+		ud, uerr := peer.GetUpdate(true, r.applied)
+		vAssert(uerr == nil, "noerr")
+		vAssert(ud.State.Term == r.term && ud.State.Vote == r.vote, "V2-update-carries-the-changed-term-and-vote")
+		vReach("state-changed")
+	}
 	for i := range r.msgs {
 		out := &r.msgs[i]
 		if out.Type == pb.RequestVoteResp && !out.Reject {
